@@ -1,6 +1,7 @@
 use crate::driver::Monitor;
 
 pub mod c01;
+pub mod c02;
 pub mod c03;
 pub mod c04;
 pub mod c13;
@@ -12,11 +13,12 @@ pub fn c13_generic(path: &str) -> String {
 	p.split('.').filter(|c| !(c.len() == 2 && c.starts_with('P'))).map(|c| if c.starts_with("item[") { "item[k]" } else { c }).collect::<Vec<_>>().join(".")
 }
 
-pub const IDS: &[&str] = &["C01", "C03", "C04", "C13", "C14"];
+pub const IDS: &[&str] = &["C01", "C02", "C03", "C04", "C13", "C14"];
 
 pub fn get(id: &str) -> Option<Box<dyn Monitor>> {
 	Some(match id {
 		"C01" => Box::new(c01::C01::new()),
+		"C02" => Box::new(c02::C02::new()),
 		"C03" => Box::new(c03::C03::new()),
 		"C04" => Box::new(c04::C04::new()),
 		"C13" => Box::new(c13::C13::new()),
